@@ -72,6 +72,14 @@ def gate_status(prog, fi, seen=None):
 
 
 def check(prog, run):
+    run.rule("R-kept", "an algorithm / setup method that keeps a computed value on the instance hands it out again only while the bound data and the parameters it was "
+             "computed from are the same (part of the validity test, or discarded by every method that replaces them)", 0)
+    from ..effects import memo_rule
+    memo_rule(prog.raw, run, "R-kept", ["pyoma2.algorithms", "pyoma2.setup"], "a run gives the result of the data / parameters of an earlier run")
+    run.rule("R-one-object", "no in-place operation on a local array that is also known by another local name used afterwards, in any function reachable from run / mpe", 0)
+    from ..effects import alias_inplace_rule
+    raw_ = prog.raw
+    alias_inplace_rule(raw_, run, "R-one-object", [q_ for q_ in reachable_set(raw_) if q_ in raw_.functions])
     run.rule("R-gate", "run_by_name: _pre_run() < run() < _set_result(); _pre_run raises on missing fs/data/run_params; every mpe/mpe_from_plot override is gated before its first store", 12)
     run.rule("R-shared-data", "no in-place effect on values that may alias the bound data or a parameter, in every function reachable from run/mpe", 30)
     run.rule("R-params-intact", "no in-place effect (pop/update/clear/append/item store/del) on a container that is, or is reached through a shallow copy of, the instance's run / mpe parameters, in every function reachable from run/mpe - a second run sees the same parameters", 25)
